@@ -10,14 +10,17 @@ Correspondence (model evaluated inside Coq on what the implementation just did):
   mut    grammar-directed mutations of valid strings: observed Accept position / IllegalTPS /
          other exception; model Reject must meet IllegalTPS, model Accept the same position.
 Model-Unspecified inputs (move number of more than 4300 digits) are skipped and counted."""
+import contextlib
 import hashlib
+import os
 
 from .. import core, takio
 from ..core import clist, cstr
 
 ID = "C13"
-THEOREMS = ["C13_parse_format", "C13_format_parse_canonical", "C13_parse_meaning", "C13_parse_reserves",
-            "C13_parse_refuses", "C13_parse_unspecified_iff", "C13_canonical_format", "C13_defaults_tie"]
+THEOREMS = ["C13_parse_format", "C13_format_parse_canonical", "C13_canonical_format", "C13_parse_meaning",
+            "C13_parse_reserves", "C13_parse_refuses", "C13_parse_refuses_early", "C13_parse_unspecified_iff",
+            "C13_split_characterised", "C13_decimal_round_trip", "C13_defaults_tie"]
 MODEL_TARGETS = ["model/Tak.vo", "model/Harness.vo", "model/Lit.vo", "model/Tps.vo"]
 TRUSTED_BASE = [
     "CPython str.split / str.join / str.isascii / str.isdigit / int() / str() on the strings involved (modelled in "
@@ -52,6 +55,29 @@ MAXD = 4300
 # --------------------------------------------------------------------------
 # implementation runners
 # --------------------------------------------------------------------------
+@contextlib.contextmanager
+def memory_guard(extra=3 << 30):
+    """while the implementation runs on mutated text: cap the address space a little above the present size, so that a
+    parser that allocates without bound (the unrepaired one builds [[]] * int('99999999')) raises MemoryError - observed
+    as a crash - instead of getting the whole check killed"""
+    try:
+        import resource
+        with open("/proc/self/statm") as f:
+            vsz = int(f.read().split()[0]) * os.sysconf("SC_PAGE_SIZE")
+        soft, hard = resource.getrlimit(resource.RLIMIT_AS)
+        want = vsz + extra
+        if hard != resource.RLIM_INFINITY:
+            want = min(want, hard)
+        resource.setrlimit(resource.RLIMIT_AS, (want, hard))
+    except Exception:  # noqa  (no /proc or no resource module: run unguarded)
+        yield
+        return
+    try:
+        yield
+    finally:
+        resource.setrlimit(resource.RLIMIT_AS, (soft, hard))
+
+
 def observe(s):
     """parse_tps of the tree under test on s -> ('acc', position) | ('ill', msg) | ('crash', class name)"""
     from tak.ptn import tps
@@ -471,9 +497,9 @@ def _report(run, cs, failing, limit, describe):
 def _positions(run):
     rng = run.rng
     if run.quick:
-        plan = {3: (26, 6, 110), 4: (26, 6, 110), 5: (26, 6, 110), 6: (22, 6, 100), 7: (14, 6, 80), 8: (12, 6, 70)}
+        plan = {3: (60, 6, 250), 4: (60, 6, 250), 5: (60, 6, 250), 6: (50, 6, 220), 7: (32, 6, 180), 8: (28, 6, 160)}
     else:
-        plan = {3: (350, 8, 1600), 4: (350, 8, 1600), 5: (350, 8, 1600), 6: (300, 8, 1400), 7: (200, 8, 1200), 8: (160, 8, 1000)}
+        plan = {3: (700, 8, 3600), 4: (700, 8, 3600), 5: (700, 8, 3600), 6: (600, 8, 3200), 7: (450, 8, 2800), 8: (350, 8, 2400)}
     out = []
     for size, (games, per, constructed) in plan.items():
         out += [(p, "playout") for p in playout_positions(rng, size, games, per)]
@@ -594,7 +620,7 @@ def _cases_mut(run, seeds, n_mut):
             tags[t] = tags.get(t, 0) + 1
         cs.add(f"({core.cbool(u)}, {cstr(s)}, {c_obs(o)})",
                {"key": key, "kind": "mut", "mutation": tag, "text": s if len(s) < 300 else s[:120] + f"...({len(s)} chars)",
-                "text_codepoints": [ord(c) for c in s] if len(s) < 300 else None, "expect_unspecified": u, "impl": j_obs(o)})
+                "text_codepoints": [ord(c) for c in s] if len(s) < 6000 else None, "expect_unspecified": u, "impl": j_obs(o)})
         seen.add(key)
         if len(samples) < 3 and tag not in ("fixed",) and o[0] == "ill":
             samples.append({"text": s[:120], "mutation": tag, "impl": "IllegalTPS"})
@@ -606,9 +632,10 @@ def _cases_mut(run, seeds, n_mut):
 def correspondence(run):
     core.setup_impl()
     positions = _positions(run)
-    lim = 6
+    lim = 3
 
-    cs, dist, nontriv, samples, direct = _cases_fmt(run, positions)
+    with memory_guard():
+        cs, dist, nontriv, samples, direct = _cases_fmt(run, positions)
     failing, shard_fail, nshards = cs.run()
     run.oblige(f"correspondence:fmt ({nshards} shards)", not shard_fail, str(shard_fail)[:1500])
     run.count(len(cs), nontriv,
@@ -624,7 +651,8 @@ def correspondence(run):
                                                                 "kind": "fmt", "input": {"position": takio.j_pos(p), "origin": origin}, "observed": why})
 
     n_grammar = 600 if run.quick else 20000
-    cs2, dist2, n2, samples2, direct2 = _cases_canon(run, positions, n_grammar)
+    with memory_guard():
+        cs2, dist2, n2, samples2, direct2 = _cases_canon(run, positions, n_grammar)
     failing2, shard_fail2, nshards2 = cs2.run()
     run.oblige(f"correspondence:canon ({nshards2} shards)", not shard_fail2, str(shard_fail2)[:1500])
     run.count(len(cs2), n2,
@@ -641,7 +669,8 @@ def correspondence(run):
     n_mut = 20000 if run.quick else 500000
     seeds = [indep_write(p.size, board_of(p), p.ply) for p, _ in positions if p.size <= 6 or run.rng.random() < 0.3]
     seeds = [s for s in seeds if len(s) < 160] or ["x3/x3/x3 1 1"]
-    cs3, dist3, n3, samples3, direct3 = _cases_mut(run, seeds, n_mut)
+    with memory_guard():
+        cs3, dist3, n3, samples3, direct3 = _cases_mut(run, seeds, n_mut)
     failing3, shard_fail3, nshards3 = cs3.run()
     run.oblige(f"correspondence:mut ({nshards3} shards)", not shard_fail3, str(shard_fail3)[:1500])
     run.count(len(cs3), n3,
@@ -654,7 +683,7 @@ def correspondence(run):
                                                 "input": m})
     for s, tag, why, o in direct3[:lim]:
         run.violation(_key("mut-direct", s), {"clause": "text that is not well-formed TPS is refused with the parser's own error",
-                                              "kind": "mut", "input": {"text": s, "text_codepoints": [ord(c) for c in s][:400], "mutation": tag},
+                                              "kind": "mut", "input": {"text": s, "text_codepoints": [ord(c) for c in s] if len(s) < 6000 else None, "mutation": tag},
                                               "observed": why, "impl": j_obs(o)})
 
 
@@ -708,6 +737,11 @@ def oracle_position(p):
 
 def search(run, broken):
     core.setup_impl()
+    with memory_guard():
+        return _search(run, broken)
+
+
+def _search(run, broken):
     for p, origin in _positions(run):
         why = oracle_position(p)
         if why:
@@ -719,7 +753,7 @@ def search(run, broken):
         why = oracle_text(s)
         if why:
             run.violation(_key("search-text", s), {"clause": "faithful reading / refusal", "kind": "mut",
-                                                   "input": {"text": s, "text_codepoints": [ord(c) for c in s][:400]}, "observed": why})
+                                                   "input": {"text": s, "text_codepoints": [ord(c) for c in s] if len(s) < 6000 else None}, "observed": why})
             return True
     return False
 
@@ -737,8 +771,9 @@ def replay(run, rp):
                 "impl_text": cs.metas[0]["impl_text"] if cs.metas else None}
     cps = inp.get("text_codepoints")
     s = "".join(chr(c) for c in cps) if cps else inp.get("text", "")
-    why = oracle_text(s)
-    o = observe(s)
+    with memory_guard():
+        why = oracle_text(s)
+        o = observe(s)
     cs = core.Cases(ID, "replay", HEADER, "bool * list Z * obs",
                     "fun c => let '(u, t, o) := c in res_chk u (parse_tps t) o", show="fun c => let '(u, t, o) := c in show_res (parse_tps t)")
     cs.add(f"({core.cbool(expect_unspec(s))}, {cstr(s)}, {c_obs(o)})", {"key": "replay"})
